@@ -65,7 +65,7 @@ Outcome(x) ==
         clientcert |-> IF Sent(x) THEN x.ccert ELSE "none"]
 
 GMConfigs == [smode : {"gm", "auto"}, ckind : {"gm"}, csuites : GMLists, ssuites : GMLists, prefer : BOOLEAN,
-              auth : Auths, ccert : CCerts, source : {"static", "callbacks", "mixed"}, tickets : BOOLEAN]
+              auth : Auths, ccert : CCerts, source : {"static", "callbacks", "mixed", "opaque"}, tickets : BOOLEAN]
 TLSConfigs == [smode : {"auto", "tls"}, ckind : {"tls"}, csuites : TLSLists, ssuites : TLSLists, prefer : BOOLEAN,
                auth : Auths, ccert : CCerts, source : {"static", "callbacks", "mixed"}, tickets : BOOLEAN]
 Mismatch == [smode : {"gm"}, ckind : {"tls"}, csuites : {<<"RSA_AES128_GCM">>}, ssuites : {<<>>}, prefer : {FALSE},
@@ -78,8 +78,11 @@ Mismatch == [smode : {"gm"}, ckind : {"tls"}, csuites : {<<"RSA_AES128_GCM">>}, 
 \* static list has one slot for the signing certificate; that half is part of the table)
 \* "mixed": an auto-switch server with the RSA certificate in the static list (for TLS clients) and the two SM2 certificates
 \* behind the GetCertificate / GetKECertificate callbacks (for GMSSL clients)
-Valid(x) == /\ (x.smode = "gm" => x.source = "static")
-            /\ (x.smode = "auto" => (x.source \in {"callbacks", "mixed"} \/ x.ckind = "gm"))
+\* "opaque": the SM2 private keys are opaque crypto.Signer / crypto.Decrypter handles (GMSSL-only server: static pair;
+\* auto-switch server: behind the callbacks)
+Valid(x) == /\ (x.smode = "gm" => x.source \in {"static", "opaque"})
+            /\ (x.smode = "auto" => (x.source \in {"callbacks", "mixed", "opaque"} \/ x.ckind = "gm"))
+            /\ (x.source = "opaque" => x.ckind = "gm")
             /\ (x.source = "mixed" => x.smode = "auto")
 Configs == {x \in GMConfigs \cup TLSConfigs \cup Mismatch : Valid(x)}
 
